@@ -225,7 +225,12 @@ def _check_merchant_migration(config: dict, config_dir: str, quiet: bool = False
                 print()
                 # Return new rules from migrated file
                 new_file = os.path.join(config_dir, 'merchants.rules')
-                return get_all_rules(new_file, match_mode=rule_mode)
+                from .merchant_engine import MerchantParseError
+                try:
+                    return get_all_rules(new_file, match_mode=rule_mode)
+                except MerchantParseError as e:
+                    print(f"Error: cannot load {new_file}: {e}", file=sys.stderr)
+                    sys.exit(1)
 
         # Continue with CSV format for this run (backwards compatible)
         if not quiet:
@@ -241,7 +246,12 @@ def _check_merchant_migration(config: dict, config_dir: str, quiet: bool = False
 
     # New .rules format
     if merchants_format == 'new':
-        rules = get_all_rules(merchants_file, match_mode=rule_mode)
+        from .merchant_engine import MerchantParseError
+        try:
+            rules = get_all_rules(merchants_file, match_mode=rule_mode)
+        except MerchantParseError as e:
+            print(f"Error: cannot load {merchants_file}: {e}", file=sys.stderr)
+            sys.exit(1)
         if not quiet:
             print(f"Loaded {len(rules)} categorization rules from {merchants_file}")
             if len(rules) == 0:
